@@ -15,6 +15,7 @@ from vlib import Violation, coq_float, coq_Q
 
 from agilerl.components.data import Transition
 from agilerl.components.replay_buffer import PrioritizedReplayBuffer
+from agilerl.components.sampler import Sampler
 
 INF = float("inf")
 U_MAX = 1.0 - 2.0 ** -24          # the largest value torch.rand (float32) can return
@@ -94,7 +95,7 @@ class C11(vlib.Driver):
             "or not) and a few larger; kind=float: arbitrary binary64 priorities, alpha in {0,0.4,0.6,1}, compared bit-exactly "
             "with the PrimFloat instance after every op; kind=exact: integer priorities, alpha=1, dyadic draws, batch a power of "
             "two, compared with the rational instance (the instance the theorems are about) AND the float instance; "
-            "exhaustive short sequences on max_size 1..3(4). Distinct = distinct (kind, max_size, alpha, beta, op list incl. values). "
+            "exhaustive sequences of length <= 4 on max_size 1..3 (quick), <= 5 on max_size 1..3 and <= 4 on max_size 4 (thorough). Distinct = distinct (kind, max_size, alpha, beta, op list incl. values). "
             "Non-trivial = at least one wrap-around of the write pointer, or a sample after >= 2 additions.")
     trusted_base = ["hand-written model coq/theories/C11/Model.v (carrier-generic; x**alpha and x**-beta are computed by CPython "
                     "and passed as tables)",
@@ -107,7 +108,7 @@ class C11(vlib.Driver):
                    "exact arithmetic in the theorems; binary64 rounding is tied by bit-exact K on the reachable draw grid "
                    "(float32 draws); the one-ulp descent into a zero leaf needs a draw within 2^-53 of 1 (Example retrieve_float_gap)",
                    "priorities are finite positive floats; float('inf') of the min tree is represented by None in the model"]
-    shard = 40
+    shard = 20       # small files: coqc needs ~0.5 GB per MB of hex-float literals
     coq_dirs = ("C09",)      # C11/Joint.v composes the priority model with the C09 ring buffer
 
     # ------------------------------------------------------------------ generation
@@ -153,13 +154,14 @@ class C11(vlib.Driver):
                 prios = [self._prio(rng, dt) for _ in range(k)]
                 if rng.random() < 0.04:
                     idxs[rng.randrange(k)] = m            # malformed: the assertion 0 <= idx < max_size fires
-                ops.append(["update", idxs, prios, dt])
+                ops.append(["update", idxs, prios, dt] + (["col"] if rng.random() < 0.4 else []))
             elif r < 0.96:
                 b = rng.choice([1, 2, 3, 4, 5, 7, 8])
                 ops.append(["sample", [self._draw(rng) for _ in range(b)]])
             else:
                 ops.append(["clear"]); size = 0
-        return {"kind": "float", "cap": m, "alpha": alpha, "beta": beta, "ops": ops, "every": every}
+        return {"kind": "float", "cap": m, "alpha": alpha, "beta": beta, "ops": ops, "every": every,
+                "via_sampler": rng.random() < 0.5}
 
     def _exact_case(self, rng, m, nops, every):
         ops, size = [], 0
@@ -211,7 +213,7 @@ class C11(vlib.Driver):
         maxlen = 4 if tier == "quick" else 5
         self.exhaustive = True
         for m in caps:
-            for L in range(1, maxlen + 1):
+            for L in range(1, (maxlen if m <= 3 else maxlen - 1) + 1):     # max_size 4 one op shorter (7^5 sequences otherwise)
                 alphabet = [("add", n) for n in range(1, m + 1)] + [("upd",), ("smp",), ("clear",)]
                 for seq in itertools.product(alphabet, repeat=L):
                     if seq[0][0] != "add" or seq[-1][0] in ("clear",):
@@ -236,15 +238,15 @@ class C11(vlib.Driver):
                     if ok:
                         cases.append({"kind": "exact", "cap": m, "alpha": 1.0, "beta": 0.4, "ops": ops, "every": 1})
         # --- seeded interleavings
-        nfloat, nexact = (260, 90) if tier == "quick" else (5000, 1500)
+        nfloat, nexact = (260, 90) if tier == "quick" else (2500, 800)
         for _ in range(nfloat):
             m = rng.choice([1, 2, 3, 4, 5, 6, 7, 8, 9, 9, 5, 3, 12, 17])
             nops = rng.choice([8, 16, 30]) if tier == "quick" else rng.choice([10, 30, 60])
-            cases.append(self._float_case(rng, m, nops, every=3 if nops > 10 else 1))
+            cases.append(self._float_case(rng, m, nops, every=4 if nops > 10 else 1))
         for _ in range(nexact):
             m = rng.choice([1, 2, 3, 4, 5, 6, 7, 8, 9])
             nops = rng.choice([6, 12, 24]) if tier == "quick" else rng.choice([10, 30, 60])
-            cases.append(self._exact_case(rng, m, nops, every=2 if nops > 10 else 1))
+            cases.append(self._exact_case(rng, m, nops, every=3 if nops > 10 else 1))
         return cases
 
     # ------------------------------------------------------------------ implementation
@@ -265,14 +267,20 @@ class C11(vlib.Driver):
                     elif op[0] == "update":
                         dt = torch.float32 if op[3] == "f32" else torch.float64
                         try:
-                            buf.update_priorities(torch.tensor(op[1], dtype=torch.int64), torch.tensor(op[2], dtype=dt))
+                            it, pt = torch.tensor(op[1], dtype=torch.int64), torch.tensor(op[2], dtype=dt)
+                            if len(op) > 4 and op[4] == "col":   # (B, 1) tensors, as sample() returns idxs and the agents pass them back
+                                it, pt = it.unsqueeze(1), pt.unsqueeze(1)
+                            buf.update_priorities(it, pt)
                         except AssertionError:
                             rec["raised"] = True
                     elif op[0] == "sample":
                         src = ScriptedRand(op[1])
                         torch.rand = src
                         try:
-                            s = buf.sample(len(op[1]), beta=case["beta"])
+                            if case.get("via_sampler"):      # the path the training loops use (sampler.py: sample_per)
+                                s = Sampler(memory=buf).sample(len(op[1]), case["beta"])
+                            else:
+                                s = buf.sample(len(op[1]), beta=case["beta"])
                         except AssertionError:
                             rec["raised"] = True
                             s = None
@@ -365,7 +373,7 @@ class C11(vlib.Driver):
                 ops.append(f"{pre}Clr")
             if op[0] != "sample":
                 nmut += 1
-            with_trees = op[0] != "sample" and (nmut % every == 0) or oi == last
+            with_trees = (op[0] != "sample" and (nmut % every == 0) or oi == last) and rec["sum"] is not None
             trees = "None"
             if with_trees:
                 trees = ("(Some ([" + "; ".join(num(x) for x in rec["sum"]) + "], ["
@@ -406,6 +414,8 @@ class C11(vlib.Driver):
             if op[0] == "update" and rec["raised"] != any(not (0 <= i < m) for i in op[1]):
                 V("update-raised", f"update_priorities({op[1]}, ...) raised={rec['raised']} with max_size {m}")
                 break
+            if rec["sum"] is None:
+                continue              # record already checked and slimmed
             st, mt = rec["sum"], [INF if x is None else x for x in rec["min"]]
             min_root = INF if rec["min_root"] is None else rec["min_root"]
             if op[0] == "add":
@@ -476,7 +486,21 @@ class C11(vlib.Driver):
                     self._oracle_sample(V, op, rec, slots, leaves, n, beta)
             if out:
                 break
+        if not out:
+            self._slim(case, obs)
         return out
+
+    @staticmethod
+    def _slim(case, obs):
+        """after the oracle has checked every op, keep the tree arrays only where the Coq term embeds them
+        (memory: thorough runs hold > 10^5 op records)"""
+        every, nmut, last = case.get("every", 1), 0, len(case["ops"]) - 1
+        for oi, (op, rec) in enumerate(zip(case["ops"], obs["trace"])):
+            if op[0] != "sample":
+                nmut += 1
+            keep = op[0] == "sample" or nmut % every == 0 or oi == last or oi == len(obs["trace"]) - 1
+            if not keep:
+                rec["sum"] = rec["min"] = None
 
     def _oracle_sample(self, V, op, rec, slots, leaves, n, beta):
         idx, w, rows = rec["sample"]["idx"], rec["sample"]["w"], rec["sample"]["rows"]
@@ -540,7 +564,7 @@ class C11(vlib.Driver):
 
     def classify(self, case, obs):
         m = case["cap"]
-        labs = [f"kind={case['kind']}", f"max_size={m if m <= 9 else '>9'}", f"alpha={case['alpha']}", f"beta={case['beta']}",
+        labs = [f"kind={case['kind']}", "sample-via=" + ("Sampler.sample_per" if case.get("via_sampler") else "buffer.sample"), f"max_size={m if m <= 9 else '>9'}", f"alpha={case['alpha']}", f"beta={case['beta']}",
                 "capacity=" + ("pow2" if m & (m - 1) == 0 else "non-pow2")]
         w, s = self._flags(case)
         if w:
